@@ -230,7 +230,9 @@ def guard_kinds(repo, ci, fn, keyp, depth=2):
         # (one call per branch after a refactor is as good as one call before the branches); the kinds are those all calls provide
         per_call = []
         for c in calls_in(fn):
-            if call_recv(c) == "self" and c.args and names_of(c.args[0]) & derived:
+            if call_recv(c) == "self" and c.args and (names_of(c.args[0]) & derived or isinstance(c.args[0], ast.Constant)):
+                # (a constant argument: the branch where the key was replaced by its default, e.g. '' for None - the path built there
+                #  comes from the same constant)
                 dc, h = ci.find_method(call_tail(c))
                 if h is not None and h is not fn:
                     hk = guard_kinds(repo, ci, h, params(h)[1], depth - 1)
